@@ -96,8 +96,9 @@ class Rig:
     """patches that give every Zeroconf instance created inside `with Rig() as rig:` fake sockets and short timers, and
     log the four calls `Zeroconf.close()` makes"""
 
-    def __init__(self, fast=15, cleanup_interval=None, ptr_min_ttl=None, safeguard=None, flush=True):
+    def __init__(self, fast=15, cleanup_interval=None, ptr_min_ttl=None, safeguard=None, flush=True, register_time=None):
         self.log = []
+        self.register_time = register_time if register_time is not None else fast   # interval of the three announcements
         self.flush = flush   # (off for the scenarios with concurrent closers: the extra round trip through the loop would move the race)
         self.calls = []     # one entry per (instance, call of close's four steps)
         self.fast = fast
@@ -170,7 +171,7 @@ class Rig:
             mock.patch.object(core, "create_sockets", create_sockets),
             mock.patch.object(eng.AsyncEngine, "_async_create_endpoints", create_endpoints),
             mock.patch.object(core, "_CHECK_TIME", self.fast),
-            mock.patch.object(core, "_REGISTER_TIME", self.fast),
+            mock.patch.object(core, "_REGISTER_TIME", self.register_time),
             mock.patch.object(core, "_UNREGISTER_TIME", self.fast),
             mock.patch.object(core.Zeroconf, "unregister_all_services", logged("unregister", lambda z: z, core.Zeroconf.unregister_all_services)),
             mock.patch.object(core.Zeroconf, "_close", logged("markdone", lambda z: z, core.Zeroconf._close)),
@@ -264,6 +265,22 @@ def judge_after_close(bad, what, zc, rig, log0, t_ret, events, expected, loop_go
         sig = "C17:registered-before-close-no-goodbye" if len(missing) == len(expected) else "C17:registered-service-record-not-withdrawn"
         bad.append((sig, "%s: %d of %d records of the registered services were never sent with TTL 0 before the transports closed"
                     % (what, len(missing), len(expected))))
+    # "withdrawn": the goodbye is the last word -- no record of a registered service goes out with a positive TTL after it was sent with TTL 0
+    last_bye = {}
+    for e in log:
+        if e[1] == "sent":
+            for k_ in rec_keys(e[2], True) & expected:
+                last_bye[k_] = e[0]
+    revived = {}
+    for e in log:
+        if e[1] == "sent":
+            for k_ in rec_keys(e[2], False) & expected:
+                if k_ in last_bye and e[0] > last_bye[k_]:
+                    revived.setdefault(k_, e[0] - last_bye[k_])
+    if revived:
+        k0 = sorted(revived)[0]
+        bad.append(("C17:announced-after-goodbye", "%s: %d records of the registered services were transmitted with their full TTL after their last goodbye (e.g. %s, %.0f ms after it)"
+                    % (what, len(revived), " ".join(k0.split()[:3]), revived[k0] * 1000)))
     late = [e for e in log if e[0] > t_ret and e[1] in ("sent", "sendto-on-closed")]
     if late:
         bad.append(("C17:send-after-close", "%s: datagram handed to a transport %.0f ms after close returned" % (what, (late[0][0] - t_ret) * 1000)))
@@ -629,6 +646,108 @@ def untracked_thread_browser_scenario(case):
     return bad, rig.calls
 
 
+def legacy_ttl_scenario(case):
+    """a service registered **through the async API with the legacy `ttl=` argument** is still being announced (three announcements,
+    60 ms apart here) when `close()` comes from an executor thread: the goodbyes (15 ms apart) are out long before `_close()` has
+    joined the tracked thread-based browser (slow listener, state changes queued) and set `done` -- nothing may be announced in
+    between: the announcement task must notice that the service is no longer registered"""
+    from zeroconf import ServiceInfo, Zeroconf
+    from zeroconf.asyncio import AsyncZeroconf
+
+    bad = []
+    events = []
+    errors = []
+    calls_out = []
+
+    async def main(rig):
+        loop = asyncio.get_running_loop()
+        loop.set_exception_handler(lambda l, ctx: errors.append(str(ctx.get("exception") or ctx.get("message"))[:200]))
+        zc = Zeroconf(interfaces=["10.0.0.1"])
+        aza = AsyncZeroconf(zc=zc)
+        await zc.async_wait_for_start()
+        await loop.run_in_executor(None, zc.add_service_listener, TB, Recorder(events, "tracked", sleep_ms=case["callback_ms"]))
+        await asyncio.sleep(0.05)
+        zc.engine.protocols[0].datagram_received(ptr_response(TB, ["x%d" % i for i in range(case["n_records"])]), ("10.0.0.9", 5353))
+        infos = [ServiceInfo(TA, "t%d.%s" % (i, TA), 80 + i, addresses=[socket.inet_aton("10.0.0.1")], server="ht.local.") for i in range(case["n_services"])]
+        n0 = len(rig.log)
+        tasks = []
+        for info in infos:
+            kw = {"ttl": case["ttl"]} if case.get("ttl") else {}
+            tasks.append(await aza.async_register_service(info, cooperating_responders=True, **kw))   # first announcement is out; two more to come
+        expected = expected_records(infos)
+        await asyncio.sleep(case["close_after_ms"] / 1000.0)
+        err = []
+
+        def do_close():
+            try:
+                zc.close()
+            except BaseException as ex:  # noqa: BLE001
+                err.append(type(ex).__name__)
+
+        await loop.run_in_executor(None, do_close)
+        t_ret = time.monotonic()
+        what = "close() from an executor thread while a service registered with%s ttl= is still being announced" % ("" if case.get("ttl") else "out")
+        if err:
+            bad.append(("C17:close-call-raises:" + err[0], "%s raised %s" % (what, err[0])))
+        await asyncio.gather(*tasks, return_exceptions=True)
+        judge_after_close(bad, what, zc, rig, n0, t_ret, events, expected, loop_goes_on=True, loop_errors=errors)
+        await asyncio.sleep(0.2)
+        late = [e for e in rig.log[n0:] if e[0] > t_ret and e[1] in ("sent", "sendto-on-closed")]
+        if late and not any(b[0] == "C17:send-after-close" for b in bad):
+            bad.append(("C17:send-after-close", "%s: datagram handed to a transport %.0f ms after close returned" % (what, (late[0][0] - t_ret) * 1000)))
+        calls_out.extend(rig.calls)
+
+    with Rig(fast=15, register_time=60) as rig:
+        asyncio.run(main(rig))
+    return bad, calls_out
+
+
+def untracked_thread_browser_async_scenario(case):
+    """an untracked thread-based `ServiceBrowser` on an instance that does **not** own its loop (as `AsyncZeroconf().zeroconf`), slow
+    callbacks, state changes queued; `async_close()` is awaited on the loop, which goes on running afterwards"""
+    from zeroconf import ServiceBrowser, Zeroconf
+    from zeroconf.asyncio import AsyncZeroconf
+
+    bad = []
+    events = []
+    errors = []
+
+    async def main(rig):
+        loop = asyncio.get_running_loop()
+        loop.set_exception_handler(lambda l, ctx: errors.append(str(ctx.get("exception") or ctx.get("message"))[:200]))
+        zc = Zeroconf(interfaces=["10.0.0.1"])
+        await zc.async_wait_for_start()
+        browser = ServiceBrowser(zc, TB, Recorder(events, "untracked-thread", sleep_ms=30))
+        await asyncio.sleep(0.05)
+        zc.engine.protocols[0].datagram_received(ptr_response(TB, ["x%d" % i for i in range(case["n_records"])]), ("10.0.0.9", 5353))
+        await asyncio.sleep(0.02)
+        n0 = len(rig.log)
+        err = []
+        try:
+            await AsyncZeroconf(zc=zc).async_close()
+        except Exception as ex:  # noqa: BLE001
+            err.append(type(ex).__name__)
+        t_ret = time.monotonic()
+        what = "async_close() with an untracked thread-based ServiceBrowser holding queued state changes (instance on the application's loop)"
+        await asyncio.sleep(0.03 * case["n_records"] + 0.1)
+        if err:
+            bad.append(("C17:close-call-raises:" + err[0], "%s raised %s" % (what, err[0])))
+        sub = []
+        judge_after_close(sub, what, zc, rig, n0, t_ret, events, set(), loop_goes_on=True, loop_errors=errors)
+        late = [e for e in events if e[0] > t_ret]
+        for s_ in sub:
+            if s_[0] == "C17:callback-after-close" and late and all(e[1] == "untracked-thread" and e[4] == browser.name for e in late):
+                bad.append((D31_SIG, "%s: %d of %d listener callbacks started after it returned (first %.0f ms late), all on the thread of the "
+                            "browser the instance does not track" % (what, len(late), len(events), (late[0][0] - t_ret) * 1000)))
+            else:
+                bad.append(s_)
+        browser.cancel() if browser.is_alive() else None
+
+    with Rig() as rig:
+        asyncio.run(main(rig))
+    return bad, []
+
+
 def concurrent_close_scenario(case):
     """**D34's input class** when `thread_backed`: `n_threads` threads call `close()` at (nearly) the same time on an instance
     with a registered service.  (Loop-backed: the same from executor threads; no loop thread to stop.)  Safeguard timeouts
@@ -747,6 +866,11 @@ def gen_cases(seed):
     cases.append({"threads": "threaded-browser", "n_records": 2, "callback_ms": 30, "closer": "close-from-thread"})
     cases.append({"threads": "close-from-callback", "n_services": rng.choice([0, 1])})
     cases.append({"threads": "untracked-thread-browser", "n_services": rng.choice([0, 1]), "n_records": rng.choice([3, 4])})
+    cases.append({"threads": "untracked-thread-browser-async", "n_records": rng.choice([3, 4])})
+    # announcements in flight (0 / 60 / 120 ms) when close() is called; with and without the legacy ttl= argument
+    cases.append({"threads": "legacy-ttl", "ttl": rng.choice([60, 120, 4500]), "n_services": rng.choice([1, 2]), "n_records": 2, "callback_ms": 300,
+                  "close_after_ms": rng.choice([0, 5, 20])})
+    cases.append({"threads": "legacy-ttl", "ttl": None, "n_services": 1, "n_records": 2, "callback_ms": 300, "close_after_ms": rng.choice([0, 5, 20])})
     cases.append({"threads": "concurrent-close", "thread_backed": True, "n_threads": rng.choice([2, 3]), "n_services": 1, "stagger_ms": rng.choice([0, 0, 5])})
     cases.append({"threads": "concurrent-close", "thread_backed": False, "n_threads": 2, "n_services": 1, "stagger_ms": rng.choice([0, 5])})
     return cases
@@ -804,6 +928,10 @@ def run_one(case, with_calls=False):
         bad, calls = callback_close_scenario(case)
     elif kind == "untracked-thread-browser":
         bad, calls = untracked_thread_browser_scenario(case)
+    elif kind == "untracked-thread-browser-async":
+        bad, calls = untracked_thread_browser_async_scenario(case)
+    elif kind == "legacy-ttl":
+        bad, calls = legacy_ttl_scenario(case)
     else:
         bad, calls = concurrent_close_scenario(case)
     return (bad, calls) if with_calls else bad
